@@ -5,6 +5,7 @@ import (
 	"net"
 	"runtime"
 	"sync"
+	"sync/atomic"
 	"time"
 
 	"github.com/btcsuite/btcd/chainhash/v2"
@@ -30,8 +31,10 @@ type Peer struct {
 	Services    wire.ServiceFlag
 	ClaimHeight int32 // if >0 overrides the advertised height
 
-	// Refuse makes the dialer fail for this peer.
+	// Refuse makes the dialer fail for this peer (set before the run; use
+	// SetRefuse to change it while the client is running).
 	Refuse bool
+	refuse atomic.Bool
 
 	// Manual: requests are queued in Pending instead of being answered.
 	Manual  bool
@@ -62,6 +65,13 @@ type Peer struct {
 	// hash or filter checkpoint on the wire.
 	Lied bool
 }
+
+// SetRefuse makes the dialer fail (or succeed again) for this peer; safe
+// while the client is running.
+func (p *Peer) SetRefuse(v bool) { p.refuse.Store(v) }
+
+// Refusing reports whether dials to this peer fail.
+func (p *Peer) Refusing() bool { return p.Refuse || p.refuse.Load() }
 
 // HasLied reports whether the peer has served falsified filter data.
 func (p *Peer) HasLied() bool { p.mu.Lock(); defer p.mu.Unlock(); return p.Lied }
